@@ -720,3 +720,63 @@ silent('r17-position-setter-locals', ALL, [(IO, "        position *= self._sampl
 silent('r18-tokenizer-worker-read-not', ALL, [(WORKERS, "        if self._stop_requested():\n            return None\n        else:\n            return self._reader.read()", "        if not self._stop_requested():\n            return self._reader.read()\n        return None")])
 silent('r19-check-audio-data-mod', ALL, [(IO, "    sample_size_bytes = int(sample_width * channels)\n    nb_samples = len(data) // sample_size_bytes\n    if nb_samples * sample_size_bytes != len(data):", "    sample_size_bytes = int(sample_width * channels)\n    if len(data) % sample_size_bytes != 0:")])
 silent('r20-post-init-duration-local', ALL, [(CORE, "        duration = len(self.data) / (\n            self.sampling_rate * self.sample_width * self.channels\n        )", "        bytes_per_second = self.sampling_rate * self.sample_width * self.channels\n        duration = len(self.data) / bytes_per_second")])
+
+silent('r21-split-guards-merged', ALL, [(CORE, "    if min_dur <= 0:\n        raise ValueError(f\"'min_dur' ({min_dur}) must be > 0\")\n    if max_dur <= 0:\n        raise ValueError(f\"'max_dur' ({max_dur}) must be > 0\")\n",
+                                         "    if min_dur <= 0 or max_dur <= 0:\n        raise ValueError(f\"'min_dur' ({min_dur}) and 'max_dur' ({max_dur}) must be > 0\")\n")])
+silent('r22-selector-normalise-first', ALL, [(UTIL, "        if selected < 0:\n            selected += channels\n        if selected < 0 or selected >= channels:", "        if selected < -channels or selected >= channels:\n            selected = channels\n        if selected < 0:\n            selected += channels\n        if selected >= channels:")])
+silent('r23-get-audio-source-elif', ALL, [(IO, "    if input == \"-\":\n        return StdinAudioSource(*_get_audio_parameters(kwargs))\n\n    if isinstance(input, bytes):", "    if input == \"-\":\n        return StdinAudioSource(*_get_audio_parameters(kwargs))\n    elif isinstance(input, bytes):")])
+silent('r24-formatter-floor-div', ALL, [(UTIL, "            hrs, millis = divmod(millis, 3600000)\n            mins, millis = divmod(millis, 60000)\n            secs, millis = divmod(millis, 1000)",
+                                         "            hrs, millis = millis // 3600000, millis % 3600000\n            mins, millis = millis // 60000, millis % 60000\n            secs, millis = millis // 1000, millis % 1000")])
+silent('r25-seconds-view-locals', ALL, [(CORE, "        sr = self._region.sampling_rate\n        start_sample = int(start_s * sr)\n        stop_sample = None if stop_s is None else round(stop_s * sr)\n        return self._region[start_sample:stop_sample]",
+                                         "        rate = self._region.sampling_rate\n        first = int(start_s * rate)\n        if stop_s is None:\n            return self._region[first:]\n        return self._region[first : round(stop_s * rate)]")])
+silent('r26-add-type-check-last', ALL, [(CORE, "        self._check_other_parameters(other)\n        data = self.data + other.data\n        return AudioRegion(data, self.sr, self.sw, self.ch)", "        self._check_other_parameters(other)\n        return AudioRegion(self.data + other.data, self.sr, self.sw, self.ch)")])
+silent('r27-save-exists-helper', ALL, [(CORE, """        if isinstance(filename, Path):
+            if not exists_ok and filename.exists():
+                raise FileExistsError(
+                    "file '{filename}' exists".format(filename=str(filename))
+                )
+        if isinstance(filename, str):""", """        if isinstance(filename, Path) and not exists_ok and filename.exists():
+            raise FileExistsError(
+                "file '{filename}' exists".format(filename=str(filename))
+            )
+        if isinstance(filename, str):""")])
+silent('r28-read-offline-else', ALL, [(CORE, "    if max_read is not None:\n        if max_read < 0:\n            max_read = None\n        else:\n            max_read = round(max_read * audio_source.sampling_rate)\n",
+                                       "    if max_read is not None and max_read < 0:\n        max_read = None\n    if max_read is not None:\n        max_read = round(max_read * audio_source.sampling_rate)\n")])
+silent('r29-recorder-rewind-early-return', ALL, [(UTIL, """        if self._read_from_cache:
+            self._audio_source.rewind()
+        else:
+            self._data = b"".join(self._cache)
+            self._cache = None
+            self._audio_source = BufferAudioSource(
+                self._data, self.sr, self.sw, self.ch
+            )
+            self._read_block = self._audio_source.read
+            self.open()
+            self._read_from_cache = True""", """        if self._read_from_cache:
+            self._audio_source.rewind()
+            return
+        self._data = b"".join(self._cache)
+        self._cache = None
+        self._audio_source = BufferAudioSource(
+            self._data, self.sr, self.sw, self.ch
+        )
+        self._read_block = self._audio_source.read
+        self.open()
+        self._read_from_cache = True""")])
+silent('r30-joiner-write-event-if-else', ALL, [(WORKERS, "        if not self._first_event:\n            self._wfp.writeframes(self._silence_data)\n        else:\n            self._first_event = False\n        self._wfp.writeframes(data)",
+                                                "        if self._first_event:\n            self._first_event = False\n        else:\n            self._wfp.writeframes(self._silence_data)\n        self._wfp.writeframes(data)")])
+silent('r31-saver-flush-clear', ALL, [(WORKERS, "            self._wfp.writeframes(data)\n            self._cache = []\n            self._total_cached = 0", "            self._wfp.writeframes(data)\n            self._cache.clear()\n            self._total_cached = 0")])
+silent('r32-to-array-two-steps', ALL, [(SIG, "    array = np.frombuffer(data, dtype=dtype).astype(np.float64)\n    return array.reshape(channels, -1, order=\"F\")", "    samples = np.frombuffer(data, dtype=dtype)\n    array = samples.astype(np.float64)\n    return array.reshape(channels, -1, order=\"F\")")])
+silent('r33-stop-all-reader-before-observers', ALL, [(WORKERS, "        self.stop()\n        for observer in self._observers:\n            observer.stop()\n        self._reader.close()", "        self.stop()\n        self._reader.close()\n        for observer in self._observers:\n            observer.stop()")],
+       'the order between observers and reader is free once the tokenizer has stopped')
+silent('r34-fixed-reader-block-size-local', ALL, [(UTIL, "        self._block_size = int(block_dur * self.sr)\n        if self._block_size == 0:", "        block_size = int(block_dur * self.sr)\n        self._block_size = block_size\n        if block_size == 0:")])
+silent('r35-tokenize-callback-is-not-none', ALL, [(CORE, "        if callback:\n            for token in token_gen:\n                callback(*token)\n            return", "        if callback is not None:\n            for token in token_gen:\n                callback(*token)\n            return None")])
+silent('r36-eq-early-returns', ALL, [(CORE, "        return (\n            (self.data == other.data)\n            and (self.sr == other.sr)\n            and (self.sw == other.sw)\n            and (self.ch == other.ch)\n        )",
+                                      "        if self.data != other.data:\n            return False\n        return (self.sr == other.sr) and (self.sw == other.sw) and (self.ch == other.ch)")])
+silent('r37-print-worker-locals', ALL, [(WORKERS, "        text = self._print_format.format(\n            id=_id,\n            start=self._format_time(audio_region.meta.start),\n            end=self._format_time(audio_region.meta.end),\n            duration=self._format_time(audio_region.duration),\n            timestamp=timestamp,\n        )\n        print(text)",
+                                         "        start = self._format_time(audio_region.meta.start)\n        end = self._format_time(audio_region.meta.end)\n        duration = self._format_time(audio_region.duration)\n        print(self._print_format.format(id=_id, start=start, end=end, duration=duration, timestamp=timestamp))")])
+silent('r38-from-file-wav-eq', ALL, [(IO, "    if audio_format in [\"wav\", \"wave\"]:\n        return _load_wave(filename, large_file)", "    if audio_format == \"wav\":\n        return _load_wave(filename, large_file)")], '_guess_audio_format already normalises "wave" to "wav"')
+silent('r39-truediv-for-break', ALL, [(CORE, "        while onset < len(self):\n            offset = 0\n            if rest > 0:\n                offset = 1\n                rest -= 1\n            offset += onset + samples_per_sub_region",
+                                       "        while onset < len(self):\n            extra = 1 if rest > 0 else 0\n            rest -= extra\n            offset = onset + samples_per_sub_region + extra")])
+silent('r40-mul-int-check-first', ALL, [(CORE, "        if not isinstance(n, int):\n            err_msg = \"Can't multiply AudioRegion by a non-int of type '{}'\"\n            raise TypeError(err_msg.format(type(n)))\n        data = self.data * n\n        return AudioRegion(data, self.sr, self.sw, self.ch)",
+                                         "        if isinstance(n, int):\n            return AudioRegion(self.data * n, self.sr, self.sw, self.ch)\n        err_msg = \"Can't multiply AudioRegion by a non-int of type '{}'\"\n        raise TypeError(err_msg.format(type(n)))")])
